@@ -225,7 +225,26 @@ def ref_apply(g: Grid, op: dict) -> None:
 # ---------------------------------------------------------------------------------------
 
 
+# the caller's argument objects may be used again in a later call: every API entry that takes a Cell / Row stores a copy
+# (clone=True is the default), so handing over the same object twice must be harmless.  POOL, when it is a dict, makes the
+# builders give back the object built earlier in the same history for the same (payload, repeat).
+POOL = None
+
+
+def _pooled(kind, key, build):
+    if POOL is None:
+        return build()
+    k = (kind, canon(key))
+    if k not in POOL:
+        POOL[k] = build()
+    return POOL[k]
+
+
 def mk_cell(p, rep=1):
+    return _pooled("cell", (p, rep), lambda: _mk_cell(p, rep))
+
+
+def _mk_cell(p, rep=1):
     from odfdo import Cell
 
     v, s = p
@@ -243,6 +262,10 @@ def mk_cell(p, rep=1):
 
 
 def mk_row(cells, rep=1):
+    return _pooled("row", (cells, rep), lambda: _mk_row(cells, rep))
+
+
+def _mk_row(cells, rep=1):
     """cells: list of payloads (already expanded); built with some run-length compression"""
     from odfdo import Row
 
@@ -252,7 +275,7 @@ def mk_row(cells, rep=1):
         j = i
         while j + 1 < len(cells) and same(cells[j + 1], cells[i]):
             j += 1
-        row.append_cell(mk_cell(cells[i], j - i + 1))
+        row.append_cell(_mk_cell(cells[i], j - i + 1))
         i = j + 1
     if rep > 1:
         row.repeated = rep
